@@ -16,6 +16,10 @@ change to an equivalent pen mid-run), texts of more than 256 bytes and long eras
 scratch buffer.
 Terminal: window at least as large as the buffer (sometimes smaller or larger), both cursor oracles and mixed ones,
 direct print and print through write_str, with and without a prior pen, sentinel pattern from a seed.
+A fourth stream of buffers *larger than the terminal* (more columns, and for the mock terminal also more lines), whose
+content is mostly kept within the screen (by a clip, or by aiming at it; runs ending exactly in the screen's last
+column and on its last line, an erase reaching the screen's edge with SKIP cells beyond) - the hypothesis of
+flush_spec_screen - and sometimes reaches beyond it (only completion and the reset are claimed then).
 exhaustive: every program of <= 3 operations over a reduced alphabet on a 2x6 buffer x {oracle stay, oracle move} x
 {direct, write_str}, then `flush`.
 Prints one JSON line: the input distribution actually produced.
@@ -440,6 +444,68 @@ def edge_history():
     return h.ops
 
 
+def small_screen_history():
+    """A buffer larger than the terminal: TC < C (both configurations) and, on the mock terminal (a real screen: cursor
+    movements are clamped to it), also TL < L.  The drawing is kept within the screen - by a clip set first, or by
+    aiming every operation at the screen's columns and lines - in about 85% of the histories (then the whole
+    specification is evaluated); the rest draws anywhere in the buffer."""
+    L = rng.choice([1, 2, 2, 3, 4, 5]); C = rng.choice([3, 4, 5, 6, 8, 10, 12])
+    sizes[f"{L}x{C}"] += 1
+    feat["small_screen_history"] += 1
+    mock = rng.random() < 0.4
+    tc = max(1, C - rng.choice([1, 1, 2, 3, C // 2]))
+    tl = max(1, L - rng.choice([0, 1, 1, 2])) if mock else L + rng.choice([0, 0, 1])
+    if mock and tl == L and rng.random() < 0.5: tl = max(1, L - 1)
+    pen = "NONE" if rng.random() < 0.4 else gen_pen(allow_null=False)
+    h = Hist(L, C)
+    ONLY_W1[0] = True
+    if mock:
+        feat["mockterm"] += 1
+        h.emit(f"termm {tl} {tc} {pen} {rng.randint(0, 9999)}")
+    else:
+        oracle = rng.choice([0, 0x7fffffff, rng.getrandbits(31)])
+        h.emit(f"term {tl} {tc} {oracle} {1 if rng.random() < 0.3 else 0} {pen} {rng.randint(0, 9999)}")
+    sl = min(tl, L)                     # the lines of the buffer that are on the screen
+    for k in range(rng.choice([1, 1, 2])):
+        mode = rng.random()
+        if mode < 0.35:
+            feat["small_screen_clip"] += 1
+            h.emit(f"clip 0 0 {sl} {tc}")
+            for _ in range(rng.randint(2, 10)):
+                h.step()
+        elif mode < 0.85:
+            feat["small_screen_aimed"] += 1
+            for line in range(sl):
+                if rng.random() < 0.2: h.emit(f"setpen {gen_pen()}")
+                r = rng.random()
+                # what ends in (or next to) the screen's last column
+                if r < 0.25:
+                    k2 = rng.randint(1, min(tc, 4))
+                    h.emit(f"text_at {line} {tc - k2} {hexs(''.join(rng.choice(ASCII) for _ in range(k2)).encode())}")
+                elif r < 0.35 and tc >= 2:
+                    h.emit(f"text_at {line} {tc - 2} {hexs(rng.choice(WIDE).encode())}")
+                elif r < 0.50: h.emit(f"erase_at {line} {rng.randint(0, tc - 1)} {tc}"); h.emit(f"skip_at {line} {tc} {C}")
+                elif r < 0.60: h.emit(f"char_at {line} {tc - 1} {rng.choice(CHAR_W1)}")
+                elif r < 0.72: h.emit(f"hline {line} {rng.randint(0, tc - 1)} {tc - 1} {rng.randint(1, 3)} {rng.randint(0, 3)}")
+                elif r < 0.80:
+                    bs, cols = gen_text()
+                    h.emit(f"text_at {line} {rng.randint(-1, tc - 1)} {hexs(bs)}"); h.emit(f"skip_at {line} {tc} {C}")
+                # something further left
+                r = rng.random()
+                if r < 0.3: h.emit(f"erase_at {line} 0 {rng.randint(1, tc)}"); h.emit(f"skip_at {line} {tc} {C}")
+                elif r < 0.5 and tc >= 2: h.emit(f"text_at {line} 0 {hexs(rng.choice(ASCII).encode())}")
+                elif r < 0.6: h.emit(f"vline {line} {line} {rng.randint(0, tc - 1)} {rng.randint(1, 3)} 3")
+            if sl < L and rng.random() < 0.3:
+                h.emit(f"skiprect {sl} 0 {L - sl} {C}")
+        else:
+            feat["small_screen_beyond"] += 1
+            for _ in range(rng.randint(2, 8)):
+                h.step()
+        h.emit("flush"); h.flushed()
+    ONLY_W1[0] = False
+    return h.ops
+
+
 def exhaustive():
     """Every program of <= 3 drawing operations over a reduced alphabet on a 2x6 buffer, four terminal configurations."""
     alpha = [
@@ -487,7 +553,10 @@ else:
     E = 250 if a.tier == "quick" else 1500
     for _ in range(E):
         lines.extend(edge_history())
-    info = {"histories": N + W + E, "wide_histories": W, "edge_histories": E}
+    S = 300 if a.tier == "quick" else 1800
+    for _ in range(S):
+        lines.extend(small_screen_history())
+    info = {"histories": N + W + E + S, "wide_histories": W, "edge_histories": E, "small_screen_histories": S}
 open(a.out, "w").write("\n".join(lines) + "\n")
 info.update({"ops": len(lines), "op_mix": dict(stats.most_common()), "text_kinds": dict(textkinds), "features": dict(feat),
              "buffer_sizes": dict(sizes.most_common(8))})
